@@ -472,6 +472,25 @@ def lift_block(blk, log, meta, canary=False):
     if canary:
         name = name + '__canary'
 
+    if kind == 'stub':
+        # signature lifted from the real function; body replaced by an opaque one: a trusted callee whose signature follows the code
+        ed = Edits(src, sig[fi.fn_idx].start, sig[fi.open_idx].start)
+        _sig_rewrite(src, fi, ed, a.get('ret', 'r'), a.get('as'), log)
+        if blk.add_generics or blk.add_params:
+            raise LiftError('template: stub lifts take no add_generics/add_param')
+        for frm, to in blk.substs:
+            pass
+        contract = _clauses('requires', blk.requires) + _clauses('ensures', blk.ensures)
+        segs.append(Seg('#[verifier::external_body]\n', tag='stub'))
+        segs.extend(ed.render())
+        segs.append(Seg('\n', tag='stub'))
+        segs.extend(contract)
+        segs.append(Seg('{ unimplemented!() }\n\n', tag='stub'))
+        log.append(f"stub {src.rel}:{src.line_of(sig[fi.fn_idx].start)} fn `{a['fn']}`: signature lifted, body opaque (trusted callee)")
+        meta['functions'].append({'kind': 'stub', 'name': a['fn'], 'as': a.get('as', a['fn']), 'impl': a.get('impl'), 'file': src.rel,
+                                  'lines': [src.line_of(sig[fi.fn_idx].start), src.line_of(sig[fi.open_idx].start)], 'sha256_16': '-', 'loops': 0, 'named_clauses': []})
+        return segs
+
     if kind == 'item':
         ed = Edits(src, sig[fi.fn_idx].start, sig[fi.close_idx].end)
         _sig_rewrite(src, fi, ed, a.get('ret', 'r'), name if (canary or 'as' in a) else None, log)
@@ -597,7 +616,7 @@ def lift_block(blk, log, meta, canary=False):
     return segs
 
 
-def assemble(template_path, canary=False):
+def assemble(template_path, canary=False, extra_shims=None, havoc_decls=None):
     """Return (text, linetable, meta). linetable[i] describes output line i+1."""
     text = open(template_path, encoding='utf-8').read()
     # shared contract fragments (the same lifted function + contract is verified in every unit that relies on it)
@@ -619,12 +638,23 @@ def assemble(template_path, canary=False):
             segs.append(Seg(f'}}\n#[allow(unused_imports)] pub use {modname}::*;\n', tag='include'))
             meta['includes'].append('spec/' + val)
         else:
+            if extra_shims and val.kind in ('item', 'tail', 'loop') :
+                for k, v in extra_shims.items():
+                    val.shim_methods.setdefault(k, v)
             if canary and val.kind in ('item', 'tail', 'loop') and val.args.get('canary', '1') != '0':
                 segs.extend(lift_block(val, log, meta, canary=False))
                 dummy = {'functions': [], 'includes': []}
                 segs.extend(lift_block(val, [], dummy, canary=True))
             else:
                 segs.extend(lift_block(val, log, meta))
+    if havoc_decls:
+        # std functions the lifted text calls but the contract library does not know: unconstrained specifications pasted
+        # from the verifier's own suggestion (driver/core.py: failures in such a run need a replayed counterexample)
+        body = '\n'.join(havoc_decls)
+        main_pos = next((k for k in range(len(segs) - 1, -1, -1) if 'fn main()' in segs[k].text), None)
+        hv = Seg('pub mod vx_auto_havoc {\n#[allow(unused_imports)] use super::*;\n#[allow(unused_imports)] use vstd::prelude::*;\nverus! {\n'
+                 + body + '\n} // verus!\n}\n', tag='auto-havoc')
+        segs.append(hv)
     out = []
     table = []
     for s in segs:
